@@ -61,19 +61,20 @@ def _on_alarm(signum, frame):
 
 
 def guarded(rec, fn, witness_fn):
-    """A case normally takes < 1 ms; one that does not finish within 3 s and again not within 12 s is a runaway
-    (logical criterion: the stream keeps polling a source that has nothing more to give).  The shard stops there,
-    because every similar case would spin as well."""
+    """A case normally takes < 1 ms of CPU; one that burns 3 s and, run again, 12 s of the process's own CPU time
+    without finishing is a runaway (the stream keeps polling a source that has nothing more to give).  The budget
+    is CPU time of this process (ITIMER_VIRTUAL), not wall-clock time, so that an overloaded machine cannot turn a
+    slow case into a verdict.  The shard stops at a runaway, because every similar case would spin as well."""
     for limit in (3, 12):
-        signal.signal(signal.SIGALRM, _on_alarm)
-        signal.setitimer(signal.ITIMER_REAL, limit)
+        signal.signal(signal.SIGVTALRM, _on_alarm)
+        signal.setitimer(signal.ITIMER_VIRTUAL, limit)
         try:
             return fn()
         except Runaway:
-            rec.count('guard.alarm_%ds' % limit)
+            rec.count('guard.alarm_%ds_cpu' % limit)
             continue
         finally:
-            signal.setitimer(signal.ITIMER_REAL, 0)
+            signal.setitimer(signal.ITIMER_VIRTUAL, 0)
     rec.violation('runaway-no-termination', witness_fn())
     raise StopCheck()
 
@@ -610,11 +611,9 @@ def _asgi_case(rec, cfg, hist):
     rec.count('mon.asgi.liveness')
     done = [e for e in ctx.log if isinstance(e, tuple)]
     if isinstance(res.exc, Runaway):
-        # the alarm went off inside the coroutine (asyncio stores BaseExceptions in the task): the stream spins
-        # without ever yielding to the loop, e.g. polling receive() after an http.disconnect
-        rec.violation('runaway-no-termination', dict(wit0, step=len(done), op=hist[min(len(done), len(hist) - 1)],
-                                                     receive_calls=res.receive_calls))
-        raise StopCheck()
+        # the alarm went off inside the coroutine (asyncio stores BaseExceptions in the task): hand it to guarded(),
+        # which runs the case once more under the longer CPU budget before calling it a runaway
+        raise Runaway()
     parked = res.outcome in ('blocked', 'steps') and len(done) < len(hist)
     if not parked and (res.outcome != 'done' or res.status != 200 or res.problems or
                        (len(done) != len(hist) and not ctx.gave_up)):
